@@ -278,7 +278,7 @@ def run_algebra(spec):
     return {'nontrivial': bool((len(t1) >= 2 and multi) or fermionic or spec['cplx']), 'classes': classes}
 
 
-SUBCHECKS = [Sub('algebra', algebra_specs, run_algebra, quick=500, thorough=40000)]
+SUBCHECKS = [Sub('algebra', algebra_specs, run_algebra, quick=500, thorough=30000)]
 
 
 # ------------------------------------------------------------------------------------------------
@@ -452,4 +452,4 @@ def run_infinite(spec):
             (['explicit_plus_hc'] if spec['explicit_plus_hc'] else [])}
 
 
-SUBCHECKS.append(Sub('infinite', infinite_specs, run_infinite, quick=300, thorough=20000))
+SUBCHECKS.append(Sub('infinite', infinite_specs, run_infinite, quick=300, thorough=8000))
